@@ -129,11 +129,17 @@ def variant(fam, lang, u, var) -> Unit | None:
                 ([f"fn fn_{u}(x{u}: Option<i32>) -> i32 {{", f"    let w{u} = 0; let v{u} = x{u}.unwrap();", f"    v{u} + w{u}", "}"], [T(1, 1, "prefix")]),
                 ([f"fn fn_{u}(x{u}: Option<i32>) -> i32 {{", f"    if x{u}.is_some() {{", f"        for i{u} in 0..3 {{", f"            use_{u}(i{u}, x{u}.unwrap());", "        }", "    }", "    0", "}"], [T(3, 3, "deep")]),
                 ([f"fn fn_{u}(x{u}: Option<i32>) -> i32 {{", f"    x{u}.unwrap()", "}"], [T(1, 1, "tail-expression")]),
+                # the receiver starts far to the right of where the continuation lines end (a column taken from one line
+                # and applied to another falls outside the line)
+                ([f"fn fn_{u}(x{u}: Option<i32>) -> i32 {{", f"    let resolved_value_with_a_long_name_{u} = compute_the_optional_{u}(x{u}, x{u})", "    .unwrap();",
+                  f"    resolved_value_with_a_long_name_{u}", "}"], [T(1, 2, "chain-long-receiver")]),
                 ([f"fn fn_{u}(x{u}: Option<i32>) -> i32 {{", f"    let v{u} = x{u}.expect(\"present{u}\");", f"    v{u}", "}"], [Truth(fam, "unwrap-abuse.expect-call", 1, 1, place="plain")]),
             ],
             "clone": [
                 ([f"fn fn_{u}(items{u}: Vec<String>) {{", f"    for it{u} in items{u}.iter() {{", f"        let c{u} = it{u}", "            .clone();", f"        use_{u}(c{u});", "    }", "}"], [T(2, 3, "chain")]),
                 ([f"fn fn_{u}(items{u}: Vec<String>) {{", f"    for it{u} in items{u}.iter() {{", f"        let n{u} = 0; let c{u} = it{u}.clone();", f"        use_{u}(c{u}, n{u});", "    }", "}"], [T(2, 2, "prefix")]),
+                ([f"fn fn_{u}(items{u}: Vec<String>) {{", f"    for it{u} in items{u}.iter() {{", f"        let copy_of_the_current_item_{u} = select_the_item_{u}(it{u}, it{u})", "  .clone();",
+                  f"        use_{u}(copy_of_the_current_item_{u});", "    }", "}"], [T(2, 3, "chain-long-receiver")]),
                 ([f"fn fn_{u}(items{u}: Vec<String>) {{", f"    while more_{u}() {{", f"        if ready_{u}() {{", f"            use_{u}(items{u}.clone());", "        }", "    }", "}"], [T(3, 3, "deep")]),
             ],
             "blocking": [
